@@ -195,6 +195,7 @@ class World:
             subs = {nm: self._reg(heap[s]) for nm, s in zip(rec["names"], rec["sub"])}
             m = self.df.Mesh(region=reg, n=tuple(rec["n"]), subregions=subs)
             self._put(o, m)
+            fld.disown(subs)   # the input Region objects remain the caller's: moving them must not move the mesh's
             for nm, s in zip(rec["names"], rec["sub"]):
                 self._put(s, m.subregions[nm])
         else:
@@ -328,7 +329,9 @@ class World:
             off = 0.5 if a["sh"] else 0.0
             p1 = [float(pmin_[d] + (a["a"][d] + off) * cell_[d]) for d in range(len(dims))]
             p2 = [float(pmin_[d] + (a["b"][d] + 1 + off) * cell_[d]) for d in range(len(dims))]
-            m.subregions = {"t": df.Region(p1=p1, p2=p2, dims=list(dims), units=list(m.region.units))}
+            given = {"t": df.Region(p1=p1, p2=p2, dims=list(dims), units=list(m.region.units))}
+            m.subregions = given
+            fld.disown(given)
             return f
         if op == "comp":
             return getattr(f, f.vdims[a["c"] - 1])
